@@ -196,7 +196,11 @@ def cli_case(draw):
     thrs = [draw(st.sampled_from([0.05, 0.2, 0.5, 0.8, 0.95, 1.0])) for _ in range(2)]
     # some samples are made deep and homozygous (many copies of one read): every SNV is then fixed before sampling starts
     deep = {s: draw(st.integers(25, 60)) for s in spec["samples"] if draw(st.integers(0, 2)) == 0}
-    return {"kind": "cli", "spec": spec, "ploidy": ploidy, "thresholds": thrs, "seed": draw(st.integers(1, 10000)), "deep": deep}
+    # one locus without any read in any sample (posterior = prior sample: no haplotype is certain) combined with a threshold near 1
+    strip = draw(st.integers(0, len(spec["loci"]) - 1)) if draw(st.integers(0, 2)) == 0 else None
+    if strip is not None:
+        thrs[0] = draw(st.sampled_from([0.95, 1.0]))
+    return {"kind": "cli", "spec": spec, "ploidy": ploidy, "thresholds": thrs, "seed": draw(st.integers(1, 10000)), "deep": deep, "strip_locus": strip}
 
 
 def deepen(spec, deep):
@@ -230,9 +234,17 @@ def deepen(spec, deep):
 def check_cli(ctx, case):
     problems = []
     spec = deepen(case["spec"], case["deep"]) if case.get("deep") else case["spec"]
+    if case.get("strip_locus") is not None:
+        import copy
+
+        spec = copy.deepcopy(spec)
+        L = spec["loci"][case["strip_locus"]]
+        for b in spec["bams"]:
+            b["reads"] = [r for r in b["reads"] if not (r["contig"] == L["contig"] and D.overlaps(r, L["start"], L["stop"]))]
     wd = os.path.join(common.work_dir(), "c13")
     shutil.rmtree(wd, ignore_errors=True)
     nontrivial = False
+    extra_classes = set()
     try:
         paths = D.write_dataset(spec, wd)
         kw = dict(ploidy=case["ploidy"], directory=wd)
@@ -303,6 +315,11 @@ def check_cli(ctx, case):
                             if gt != exp_gt:
                                 problems.append(Problem("cli:gt_unknown_alleles", "threshold %r sample %s: GT %s, expected %s (genotype at t=0: %s)" % (thr, s, gt, exp_gt, called0)))
                                 return problems
+                        if "NOA" in r["FILTER"].split(";"):
+                            extra_classes.add("cli:NOA_record")
+                            if any(x != "." for x in gt):
+                                problems.append(Problem("cli:noa_record_with_called_allele", "threshold %r: record flagged NOA (no allele observed) but sample %s has GT %s" % (thr, s, "/".join(gt))))
+                                return problems
                         if "REFMASKED" in r["INFO"] and "0" in gt:
                             problems.append(Problem("cli:masked_reference_in_gt", "REFMASKED record with GT %s" % gt))
                             return problems
@@ -326,7 +343,7 @@ def check_cli(ctx, case):
                             return problems
     finally:
         shutil.rmtree(wd, ignore_errors=True)
-        ctx.record(case, nontrivial and len(spec["samples"]) >= 2, ["cli"] + (["cli:some_haplotype_excluded"] if nontrivial else []) + (["cli:deep_homozygous_sample"] if case.get("deep") else []))
+        ctx.record(case, nontrivial and len(spec["samples"]) >= 2, ["cli"] + (["cli:some_haplotype_excluded"] if nontrivial else []) + (["cli:deep_homozygous_sample"] if case.get("deep") else []) + (["cli:locus_without_reads"] if case.get("strip_locus") is not None else []) + sorted(extra_classes))
     return problems
 
 
